@@ -710,7 +710,8 @@ class TorConfig:
                 )
             socks_config = self.SocksPort[0]
         else:
-            if not any([socks_config in port for port in self.SocksPort]):
+            wanted = _socksport_address(socks_config)
+            if not any([wanted == _socksport_address(port) for port in self.SocksPort]):
                 # need to configure Tor
                 self.SocksPort.append(socks_config)
                 try:
